@@ -487,12 +487,12 @@ func xExpr(e sqlparser.Expr) (Node, error) {
 				}
 				return Node{"k": "in", "neg": x.Operator == sqlparser.NotInOp, "l": l, "list": list}, nil
 			case *sqlparser.Subquery:
-				if x.Operator == sqlparser.NotInOp {
-					return nil, unsupported("NOT IN (subquery)")
-				}
 				q, err := xStatement(r.Select)
 				if err != nil {
 					return nil, err
+				}
+				if x.Operator == sqlparser.NotInOp {
+					return Node{"k": "insub", "l": l, "q": q, "neg": true}, nil
 				}
 				return Node{"k": "insub", "l": l, "q": q}, nil
 			}
